@@ -31,7 +31,8 @@ accept, with v4/v6/as_resources() as sets, plus ⊆ issuer and canonical order; 
 intermediate CA or any inherit / trim / overclaim. tamper: an accepted chain plus one single-point tamper of one \
 certificate (bit flip in TBS bytes, bit flip in signature value, sibling issuer with another key, signed by another \
 key, time just outside the window, AKI replaced and re-signed, SKI replaced in the TBS by DER patching and re-signed \
-with the issuer key, one claimed block replaced by one outside the issuer); oracle = rejected, except block tamper \
+with the issuer key, one claimed block replaced by one outside the issuer, notBefore/notAfter swapped in the TBS \
+(empty window) and re-signed, evaluated between the ends); oracle = rejected, except block tamper \
 under trim = accepted with the intersection; every tamper case is non-trivial.";
 
 //------------ private interval-set model ---------------------------------------
@@ -801,7 +802,32 @@ fn layout(der: &[u8]) -> Option<CertLayout> {
     Some(CertLayout { tbs: (s, tbs_e), sig: (sig_s + 1, sig_e), ski: ski? })
 }
 
-const TAMPER_KINDS: [&str; 8] = [
+/// Positions of the two Time TLVs inside the TBS: (start of notBefore, start of
+/// notAfter, end of notAfter). Validity is the third SEQUENCE among the
+/// top-level TBS fields (after signature algorithm and issuer).
+fn validity_span(der: &[u8], lay: &CertLayout) -> Option<(usize, usize, usize)> {
+    let (_, tbs_cs, tbs_ce) = tlv(der, lay.tbs.0)?;
+    let mut pos = tbs_cs;
+    let mut seqs = 0;
+    while pos < tbs_ce {
+        let (t, cs, ce) = tlv(der, pos)?;
+        if t == 0x30 {
+            seqs += 1;
+            if seqs == 3 {
+                let (t1, _, e1) = tlv(der, cs)?;
+                let (t2, _, e2) = tlv(der, e1)?;
+                if !(t1 == 0x17 || t1 == 0x18) || !(t2 == 0x17 || t2 == 0x18) || e2 != ce {
+                    return None;
+                }
+                return Some((cs, e1, e2));
+            }
+        }
+        pos = ce;
+    }
+    None
+}
+
+const TAMPER_KINDS: [&str; 9] = [
     "tamper-tbs-bit",
     "tamper-sig-bit",
     "tamper-sibling-issuer",
@@ -810,6 +836,7 @@ const TAMPER_KINDS: [&str; 8] = [
     "tamper-aki",
     "tamper-ski",
     "tamper-block",
+    "tamper-window-inverted",
 ];
 
 fn run_tamper(tc: &TamperCase, obs: &mut Obs) -> CheckResult {
@@ -817,7 +844,7 @@ fn run_tamper(tc: &TamperCase, obs: &mut Obs) -> CheckResult {
     let t = tc.t;
     ensure!(c.certs.len() >= 2 && c.certs.len() <= 4, "malformed case: {} certificates", c.certs.len());
     let n = c.certs.len();
-    let wanted = [0usize, 1, 2, 3, 4, 5, 6, 7, 7][t.kind as usize % 9];
+    let wanted = [0usize, 1, 2, 3, 4, 5, 6, 7, 7, 8][t.kind as usize % 10];
     // sibling issuer and block tamper need an issuer: aim below the TA
     let idx = if wanted == 2 || wanted == 7 { 1 + pick_idx(t.idx, n - 1) } else { pick_idx(t.idx, n) };
     obs.nontrivial();
@@ -881,6 +908,10 @@ fn run_tamper(tc: &TamperCase, obs: &mut Obs) -> CheckResult {
     }
     if k == 2 && idx == 0 {
         k = 3;
+    }
+    // an inverted window needs two different ends
+    if k == 8 && spec.nb >= spec.na {
+        k = 4;
     }
     obs.label(TAMPER_KINDS[k]);
 
@@ -987,6 +1018,33 @@ fn run_tamper(tc: &TamperCase, obs: &mut Obs) -> CheckResult {
                 "harness: re-signing failed"
             );
             expect_reject(&der, irc, spec.eval_ms, "subject key identifier replaced in the TBS, re-signed by the issuer")
+        }
+        8 => {
+            // notBefore and notAfter swapped in the signed bytes, re-signed by the
+            // issuer: the window is empty, no evaluation time lies inside it — in
+            // particular not the (originally valid) one between the two ends.
+            let mut der = ders[idx].clone();
+            let lay = layout(&der).ok_or_else(|| Fail::new("harness: cannot locate the TBS"))?;
+            let (s1, s2, e2) = validity_span(&der, &lay).ok_or_else(|| Fail::new("harness: cannot locate the validity"))?;
+            let first = der[s1..s2].to_vec();
+            let second = der[s2..e2].to_vec();
+            let mut swapped = second.clone();
+            swapped.extend_from_slice(&first);
+            der[s1..e2].copy_from_slice(&swapped);
+            let sig = keys::raw_sign(issuer_key, &der[lay.tbs.0..lay.tbs.1]);
+            ensure!(sig.len() == lay.sig.1 - lay.sig.0, "harness: signature length changed");
+            der[lay.sig.0..lay.sig.1].copy_from_slice(&sig);
+            ensure!(
+                keys::raw_verify(issuer_key, &der[lay.tbs.0..lay.tbs.1], &der[lay.sig.0..lay.sig.1]),
+                "harness: re-signing failed"
+            );
+            let eval = match t.a % 4 {
+                0 => spec.eval_ms,
+                1 => spec.nb * 1000,
+                2 => spec.na * 1000,
+                _ => spec.nb * 1000 + ((t.b as i64).rem_euclid((spec.na - spec.nb).max(1) * 1000)),
+            };
+            expect_reject(&der, irc, eval, "notBefore and notAfter swapped (empty window), re-signed by the issuer")
         }
         _ => {
             let (f, gaps) = block_choice().expect("checked above");
@@ -1398,7 +1456,7 @@ fn chain_strategy(_: Tier) -> BoxedStrategy<Chain> {
 }
 
 fn tamper_strategy(_: Tier) -> BoxedStrategy<TamperCase> {
-    (chain_r(), any::<u16>(), 0u8..9, any::<u64>(), any::<u64>(), any::<u64>())
+    (chain_r(), any::<u16>(), 0u8..10, any::<u64>(), any::<u64>(), any::<u64>())
         .prop_map(|(r, idx, kind, a, b, c)| TamperCase { chain: make_chain(&r, true), t: Tamper { idx, kind, a, b, c } })
         .boxed()
 }
@@ -1455,6 +1513,7 @@ pub fn property() -> Property {
                     ("tamper-aki", 0.05),
                     ("tamper-ski", 0.05),
                     ("tamper-block", 0.07),
+                    ("tamper-window-inverted", 0.04),
                     ("tamper-block-trim", 0.03),
                     ("tamper-block-refuse", 0.03),
                 ],
